@@ -32,6 +32,26 @@ CLAIMS = {
              "validated against torch every run; values are compared with the implementation (linear/nearest x "
              "zeros/border/constant x Image/batch forms) and with SimpleITK.Resample inside the field of view.",
         ref="5 C05"),
+    "C08": dict(
+        technique="Lean 4 theorems over the model of linalg.py/affine.py/_kornia.py (9 operand-form pairs, 27 Euler "
+                  "orders, quaternion/angle-axis algebra) + exhaustive correspondence over forms, batch shapes, order strings",
+        text="40 theorems: composing in any of the 9 operand-form pairs (and n-ary) equals applying one after the other; "
+             "as_matrix keeps the map; vectors ignore translation; broadcasting shapes; Euler matrix = product of "
+             "elementary rotations for all 27 order triples (pins the hard-coded closed forms and the fallback), "
+             "orthogonal with det 1 under c^2+s^2=1; order-string normalisation; unit quaternion -> proper rotation; "
+             "angle-axis/quaternion/matrix agreement in verification form; scaling/shear getters-setters. Clauses the "
+             "current code violates are refuted with witnesses and listed as known findings (F-08a..d).",
+        ref="5 C08"),
+    "C11": dict(
+        technique="Lean 4 induction over squaring steps on the model of core/flow.py expv (sampling an affine field "
+                  "inside the hull is exact) + correspondence of the literal recursion",
+        text="7 theorems: one squaring step on the sampled displacement of a hull-preserving affine map gives the sampled "
+             "displacement of its square; hence expv with k steps equals the displacement of (I+sH, sh) iterated 2^k "
+             "times at every grid point, for every k, dimension, grid size >= 2, either align_corners and padding; zero "
+             "steps; inverse flag = negated scale = negated field; a checkable sufficient condition for hull "
+             "invariance. The literal recursion (incl. clamping) is compared with the implementation on random fields; "
+             "convergence to exp(H) and the second-order smooth-field bound are exploration only (partial).",
+        ref="5 C11"),
 }
 
 NOT_APPLICABLE = {}
